@@ -102,13 +102,15 @@ Definition dsl_body (bs : list nbeh) (i : nat) (kw : kwargs) (att : nat) : outco
   end.
 
 (* ---- default oracles ------------------------------------------------------------------------ *)
+(* default order oracle: generation order (all nodes whose predecessors are done, then the next layer, ...), which is what
+   networkx's topological_sort produces; within a layer the order of d_nodes *)
 Fixpoint kahn (fuel : nat) (g : graph) (d : rdag) (remaining done : list key) : list key :=
   match fuel with
   | O => done ++ remaining
   | S f =>
     match filter (fun k => forallb (fun p => negb (mem key_eqb p remaining)) (dag_preds g d k)) remaining with
     | [] => done ++ remaining
-    | k :: _ => kahn f g d (remove_all key_eqb k remaining) (done ++ [k])
+    | layer => kahn f g d (filter (fun k => negb (mem key_eqb k layer)) remaining) (done ++ layer)
     end
   end.
 
